@@ -261,17 +261,25 @@ def run_dq(ops_list, order, inputs):
     from pennylane.devices.qubit import apply_operation
     n = len(order)
     prog = DEV.preprocess_transforms()
-    batch, _ = prog([QuantumScript(list(ops_list), [qp.state()])])
+    # the all-zero BasisState on every wire of `order` makes all of them part of the circuit (as in a real
+    # circuit that prepares the input), so that dynamically allocated work wires never alias an input wire
+    prep = qp.BasisState(np.zeros(n, dtype=int), wires=order)
+    batch, _ = prog([QuantumScript([prep] + list(ops_list), [qp.state()])])
     tape = batch[0]
+    body = list(tape.operations)
+    while body and body[0].name in ("BasisState", "StatePrep", "BasisStatePreparation"):
+        body.pop(0)
+    if any(o.name in ("BasisState", "StatePrep") for o in body) or len(body) == len(tape.operations):
+        return run_dq_slow(ops_list, order, inputs)
     extra = [w for w in tape.wires if w not in set(order)]
     allw = list(order) + extra
     nt = len(allw)
     if nt > 16:
         raise RuntimeError("too many wires")
-    if any(o.name in ("MidMeasureMP", "MidMeasure", "Conditional") for o in tape.operations):
+    if any(o.name in ("MidMeasureMP", "MidMeasure", "Conditional") for o in body):
         return run_dq_slow(ops_list, order, inputs)
     wmap = {w: i for i, w in enumerate(allw)}
-    native = [o.map_wires(wmap) for o in tape.operations]
+    native = [o.map_wires(wmap) for o in body]
     st = np.zeros((len(inputs),) + (2,) * nt, dtype=complex)
     for b, i in enumerate(inputs):
         st[(b,) + tuple(bits_of(i, n)) + (0,) * (nt - n)] = 1.0
